@@ -198,6 +198,11 @@ Definition layerA (ws : list string) : string :=
       | Some f' => join "|" (map (fun l => show_cps (strip_cp l)) (split_lines_cp f'))
       | None => "PARSE"
       end
+  | ["consts"] =>
+      (* the constants the model is written against, for comparison with the live class (P-consts) *)
+      "default=" ++ join "," default_list ++ " other=" ++ join "," other_list
+      ++ " keys=" ++ join "," required_keys ++ " store_algorithms=" ++ join "," accepted_store_algorithms
+      ++ " exns=" ++ join "," (map show_exn all_exns)
   | ["checkcp"; v] =>
       (* _check_string at code-point level (Unicode whitespace): N | S<cps> *)
       if String.eqb v "N" then (if check_string_cp None then "ok" else "ValueError")
